@@ -182,7 +182,18 @@ def mg3456(F, R):
                   "an edge of the left graph can be redirected: bind(left, _, a) is not restricted to the case where left has no "
                   "`a` edge yet (everything g had must still be there)", detail)
         else:
-            R.ok("MG3", e.where(), "bind(left, _, a) only where kid(left, a) is None", detail)
+            # the target is a vertex of the *left* graph: the id just obtained from next_id(), or what the right->left table holds
+            # for the right edge's target — never a right-graph id as such
+            tgt = strip_load(e.args[2])
+            from_fresh = mentions(tgt, lambda y: y[0] == "call" and y[1].endswith("::next_id"))
+            from_table = mentions(tgt, lambda y: y[0] == "call" and "HashMap" in y[1] and y[1].split("::")[-1] in ("get", "get_mut", "index") and
+                                  strip_load(y[2][0]) == mp)
+            if not (from_fresh or from_table):
+                R.bad("MG3", "MG3/Sodg::merge/bind-target-not-a-left-vertex", e.where(),
+                      "the descent binds to something that is neither a fresh id nor the left vertex recorded for the right target (%s): "
+                      "a right-graph id is used in the left graph" % show(tgt, e.body)[:100], detail)
+            else:
+                R.ok("MG3", e.where(), "bind(left, fresh-or-mapped, a) only where kid(left, a) is None", detail)
     # ---- MG4
     nids = [e for e in raw if e.kind == "call" and e.name == "next_id" and e.callee.get("local")]
     R.floor("MG4", "next_id calls in the descent", len(nids), 1, rec.where())
